@@ -288,7 +288,11 @@ func parseUint64_reader(r readFloatResult) (f uint64, fail bool) {
 			f /= uint64pow10[uint8(-r.exp)]
 		}
 	} else { // exp > 0
-		f *= uint64pow10[uint8(r.exp)]
+		if f > math.MaxUint64/uint64pow10[uint8(r.exp)] {
+			fail = true // f * 10^exp does not fit a uint64
+		} else {
+			f *= uint64pow10[uint8(r.exp)]
+		}
 	}
 	return
 }
